@@ -693,8 +693,10 @@ impl<'s, const M: usize> Exec<'s, M> {
                 }
                 if let Some((p, size, align, s)) = kept.get() {
                     self.stats.hit("initialiser_kept_inner_block");
-                    if self.viol.is_empty() {
-                        self.on_block(p, size, align, Expect::Pat(s), true);
+                    if self.viol.is_empty() && self.on_block(p, size, align, Expect::Pat(s), true) {
+                        if let Some(b) = self.blocks.get_mut(&p) {
+                            b.kept_by_init = true;
+                        }
                     }
                 }
                 let e = init_err.take().unwrap();
@@ -915,8 +917,10 @@ impl<'s, const M: usize> Exec<'s, M> {
             self.post(None);
             let new_chunk = !self.op_reqs.is_empty();
             if let Some((p, size, align, s)) = kept.get() {
-                if self.viol.is_empty() {
-                    self.on_block(p, size, align, Expect::Pat(s), true);
+                if self.viol.is_empty() && self.on_block(p, size, align, Expect::Pat(s), true) {
+                    if let Some(b) = self.blocks.get_mut(&p) {
+                        b.kept_by_init = true;
+                    }
                 }
             }
             let e = init_err.take().unwrap();
